@@ -202,6 +202,14 @@ func (w *World) footprintChecks() *footprintResult {
 							}
 						}
 					}
+				case *ssa.Slice:
+					// a slice of a package-level array aliases shared storage: whoever holds it (an append, a
+					// struct field, a callee) writes the variable without naming it
+					if g := rootGlobal(x.X); g != nil && g.Pkg != nil && isVerifiedPkgPath(g.Pkg.Pkg.Path()) {
+						if _, isPtr := x.X.Type().Underlying().(*types.Pointer); isPtr {
+							escapes[globalName(g)] = append(escapes[globalName(g)], finding{fn, x.Pos(), "slice taken of the variable's storage"})
+						}
+					}
 				case *ssa.Range:
 					if _, ok := x.X.Type().Underlying().(*types.Map); ok {
 						mapRanges = append(mapRanges, finding{fn, x.Pos(), ""})
